@@ -10,6 +10,7 @@ import (
 	"strings"
 
 	bpmn "github.com/olive-io/bpmn/v2"
+	"github.com/olive-io/bpmn/v2/pkg/data"
 	"github.com/olive-io/bpmn/v2/pkg/tracing"
 	"github.com/olive-io/bpmn/v2/verifrt"
 
@@ -43,6 +44,24 @@ func programBody(name string, b *drv.Block) func() {
 					}
 				}
 				issued++
+				// a snapshot of the variables is taken at every task request and read twice, the
+				// second time after another call into the engine: results written meanwhile must
+				// not be written into the items a snapshot holds
+				go func() {
+					snap := r.P.Locator().CloneVariables()
+					for pass := 0; pass < 2; pass++ {
+						if pass == 1 {
+							r.P.Locator().GetVariable("c0")
+						}
+						// the last thing the goroutine does is read the snapshot: nothing orders
+						// these reads before a later write by the engine
+						for _, it := range snap {
+							if it != nil {
+								_ = it.Value()
+							}
+						}
+					}
+				}()
 				go func() {
 					if v, isCnt := p.CntTask[id]; isCnt {
 						tt.Do(bpmn.DoWithResults(map[string]any{v: int64(visit)}))
@@ -70,11 +89,21 @@ func programBody(name string, b *drv.Block) func() {
 			}
 			r.P.Tracer().Unsubscribe(ch)
 		}()
-		// variable reader
+		// variable reader: takes snapshots and reads them (the items of a snapshot are read
+		// after the call has returned, possibly while a task result writes the variable again)
 		go func() {
+			var kept []map[string]data.IItem
 			for i := 0; i < 3; i++ {
-				_ = r.P.Locator().CloneVariables()
+				snap := r.P.Locator().CloneVariables()
+				kept = append(kept, snap)
 				r.P.Locator().GetVariable("c0")
+				for _, m := range kept {
+					for _, it := range m {
+						if it != nil {
+							_ = it.Value()
+						}
+					}
+				}
 			}
 		}()
 		// event deliverer: an event nobody listens for, handed to the instance while tokens
